@@ -190,3 +190,4 @@ pub fn apply(sess: &mut Session, op: &HistOp, replies: &[String], reply_idx: &mu
     }
     calls
 }
+pub const IMMEDIATE_COUNT: usize = 0;
